@@ -36,6 +36,9 @@ func oracle(c Case) *ev.Verdict {
 	if esc := sut.Trap("Check", func() { cerr = sut.Describe(b.S.Check()) }); esc != nil {
 		return ev.V("panic:Check:"+esc.Frame, "Check() panicked: %s\n%s", esc.Value, tp)
 	}
+	if len(b.AddErr) > 0 && refWithOr(p) {
+		return nil // (a type with an `or` rule beside a reference does not load: code 1108)
+	}
 	if len(b.AddErr) > 0 {
 		for n, e := range b.AddErr {
 			return ev.V(fmt.Sprintf("harness:addtype-%d", e.Code), "AddType(%s) fails: %s\n%s", n, e, tp)
@@ -43,6 +46,9 @@ func oracle(c Case) *ev.Verdict {
 	}
 	fin := graph.Finite(p)
 	self, cycleLen := graph.SelfRequired(p)
+	if cerr != nil && cerr.Code == 1108 && refWithOr(p) {
+		return nil // an `or` rule needs a scalar example: refused whatever the graph is
+	}
 	if fin["@main"] && cerr != nil {
 		if cerr.Code == recursionCode {
 			return ev.V("false-alarm", "the root has a finite instance but Check() reports infinite recursion: %s\n%s", cerr.Message, tp)
@@ -77,6 +83,9 @@ func oracle(c Case) *ev.Verdict {
 			return ev.V("panic:Example:"+r.esc.Frame, "Example() panicked: %s\n%s", r.esc.Value, tp)
 		}
 		if r.err != nil {
+			if e := sut.Describe(r.err); e.Code == recursionCode && (p.Root.Kind == "ref" || p.Root.Kind == "choice") && !fin["@main"] {
+				return ev.V("example:none:alias-root-without-finite-instance", "Check() passes (the cycle does not lead through the root) but the root is a reference and none of its targets has a finite instance, so Example() has nothing to return: %v\n%s", r.err, tp)
+			}
 			return ev.V("example:error", "Check() passes but Example() fails: %v\n%s", r.err, tp)
 		}
 		if len(r.ex) > 1<<20 {
@@ -92,6 +101,22 @@ func oracle(c Case) *ev.Verdict {
 		return ev.V("example:no-result-in-bounded-time", "Example() did not return within 20 s\n%s", tp)
 	}
 	return nil
+}
+
+func refWithOr(p *model.Project) bool {
+	found := false
+	visit := func(n *model.Node) {
+		if n.Kind == "ref" && n.HasRule("or") {
+			found = true
+		}
+	}
+	p.Root.Walk(visit)
+	for _, t := range p.Types {
+		if t.Node != nil {
+			t.Node.Walk(visit)
+		}
+	}
+	return found
 }
 
 func clip(s string, n int) string {
@@ -117,13 +142,35 @@ func genLink(t *rapid.T, names []string, label string) *model.Node {
 			n = model.Ref(names[0])
 		}
 	}
-	switch rapid.IntRange(0, 6).Draw(t, label+"attr") {
+	if n.Kind == "choice" && rapid.IntRange(0, 5).Draw(t, label+"mixed") == 0 {
+		n.Rules = append(n.Rules, model.R("type", model.Str("mixed"))) // what a choice is anyway, written out
+	}
+	switch rapid.IntRange(0, 8).Draw(t, label+"attr") {
 	case 0:
 		n.Rules = append(n.Rules, model.R("optional", model.Bool(true)))
 	case 1:
 		n.Rules = append(n.Rules, model.R("nullable", model.Bool(true)))
 	case 2:
 		return model.Arr().Item(n)
+	case 7: // arrays with several item templates, the link first, in the middle or last
+		other := func(l string) *model.Node {
+			if rapid.Bool().Draw(t, l) {
+				return model.Scalar("integer", "1")
+			}
+			return model.Ref(rapid.SampledFrom(names).Draw(t, l+"tg"))
+		}
+		switch rapid.IntRange(0, 2).Draw(t, label+"tuple") {
+		case 0:
+			return model.Arr().Item(n).Item(other(label + "o1"))
+		case 1:
+			return model.Arr().Item(other(label + "o1")).Item(n)
+		default:
+			return model.Arr().Item(other(label + "o1")).Item(n).Item(other(label + "o2"))
+		}
+	case 8: // a written `or` beside a reference: refused (code 1108), never accepted without an example
+		if n.Kind == "ref" && rapid.Bool().Draw(t, label+"refor") {
+			n.Rules = append(n.Rules, model.R("or", model.List(model.Str("string"), model.Str("integer"))))
+		}
 	case 3:
 		n.Rules = append(n.Rules, model.R("optional", model.Bool(false)))
 	case 4:
@@ -143,9 +190,13 @@ func genCase(t *rapid.T) Case {
 		if name != "@main" && rapid.IntRange(0, 9).Draw(t, name+"leaf") == 0 {
 			return rapid.SampledFrom([]*model.Node{model.Scalar("integer", "1"), model.Scalar("string", `"s"`), model.Arr().Item(model.Scalar("integer", "1"))}).Draw(t, name+"leafk")
 		}
-		// a type whose body is itself a link: alias, nullable alias, choice
-		if name != "@main" && rapid.IntRange(0, 7).Draw(t, name+"alias") == 0 {
-			switch rapid.IntRange(0, 2).Draw(t, name+"aliask") {
+		// a type whose body is itself a link: alias, nullable alias, choice (the root: alias or choice)
+		if rapid.IntRange(0, 7).Draw(t, name+"alias") == 0 {
+			k := rapid.IntRange(0, 2).Draw(t, name+"aliask")
+			if name == "@main" && k == 1 {
+				k = 0
+			}
+			switch k {
 			case 0:
 				return model.Ref(rapid.SampledFrom(names).Draw(t, name+"aliastg"))
 			case 1:
@@ -228,6 +279,12 @@ func judged(c Case) *ev.Verdict {
 	if c.P != nil && c.P.Root != nil {
 		nt, class := classify(c.P)
 		ev.Class("graphs", class)
+		if c.P.Root.Kind == "ref" || c.P.Root.Kind == "choice" {
+			ev.Class("graphs", "the root is an alias / a choice")
+		}
+		if refWithOr(c.P) {
+			ev.Class("graphs", "reference with a written or rule")
+		}
 		if nt {
 			ev.NonTrivial("graphs", c.P.Text(nil).String())
 			ev.Class("graphs", "has a cycle")
